@@ -125,7 +125,21 @@ def structured_matrix(draw, n, p, exact=None, boundary_positions=(), max_shifts=
 @st.composite
 def any_matrix(draw, n, p):
     """Mixture of the families; returns X only."""
-    kind = draw(st.sampled_from(["structured", "exact", "generic", "plateau", "offset_scale", "constant", "structured"]))
+    kind = draw(st.sampled_from(["structured", "exact", "generic", "plateau", "offset_scale", "constant", "structured", "identical_spikes"]))
+    if kind == "identical_spikes":
+        # a quantised signal that is constant except for a few isolated readings of one identical size (a counter that is 0
+        # except for saturated readings): exactly equal, flat-topped score peaks in separate places
+        level = draw(st.sampled_from([0.0, 0.0, 1.0, 0.1, -3.0]))
+        size = draw(st.sampled_from([255.0, 8.0, -5.0, 1.0]))
+        cols = draw(st.integers(1, 2 ** p - 1))
+        k = draw(st.integers(2, 4))
+        where = [draw(st.integers(0, n - 1)) for _ in range(k)]
+        X = [[level] * p for _ in range(n)]
+        for t in where:
+            for j in range(p):
+                if (cols >> j) & 1:
+                    X[t][j] = level + size
+        return X
     if kind == "offset_scale":
         # per-column level and spread: x = offset_j + scale_j * noise (signal well above / below its level,
         # small and large units); variances stay far above the 1e-16 floor
@@ -185,7 +199,7 @@ INDEX_KINDS = ["range0", "range_offset", "range_step", "datetime_D", "datetime_h
 # time indexes in which one label occurs twice (hourly wall-clock stamps over the end of daylight saving, several
 # readings per period): monotone, accepted by the library's validation, handled purely by position
 REPEAT_INDEX_KINDS = ["datetime_repeat", "period_repeat"]
-INDEX_NAMES = [None, "time", "t"]
+INDEX_NAMES = [None, "time", "t", "labels", "ilocs", "index", 0]  # also the library's own output column names
 
 
 @st.composite
